@@ -1,5 +1,6 @@
 import PyPhysim.Model.Proto
 import PyPhysim.Model.C18
+import PyPhysim.Model.C18Buf
 import PyPhysim.Generated.PrimeTable
 import PyPhysim.Generated.C18RootTables
 open PyPhysim.Proto PyPhysim.Cazac PyPhysim.Generated
@@ -177,7 +178,7 @@ def showRowsE (r : Except PyErr (List (List CF))) : String :=
   | .ok rows => showList showCL rows "|"
   | .error e => showErr e
 
-def handle (toks : List String) : String :=
+def handle1 (toks : List String) : String :=
   match toks with
   | ["lookup", s] => match s.toNat? with
       | some s => (match primeLookup smallPrimeList s with | .ok p => toString p | .error e => showErr e)
@@ -196,6 +197,16 @@ def handle (toks : List String) : String :=
           | .ok ph => showList showRat ph | .error e => showErr e)
       | some (.error e), _, _ => showErr e
       | _, _, _ => "bad-op"
+  | "shiftph" :: rest =>    -- get_shifted_root_seq on an arbitrary unit-modulus array given by exact phases
+      match getNat rest "ncs", getNat rest "D", (kv rest "ph").bind (fun s => parseRatList? s) with
+      | some ncs, some d, some ph => (match shiftedPhases ph ncs d with
+          | .ok out => showList showRat out | .error e => showErr e)
+      | _, _, _ => "bad-op"
+  | "extl" :: rest =>       -- get_extended_ZF on an arbitrary integer array
+      match getNat rest "size", (kv rest "l").bind (fun s => parseIntList? s) with
+      | some size, some l => (match extendedZF l size with
+          | .ok out => showList toString out | .error e => showErr e)
+      | _, _ => "bad-op"
   | "ue" :: rest => match parseUe rest with      -- the stored user sequence array
       | some (.ok ue) => showList showCL ue.rows "|"
       | some (.error e) => showErr e
@@ -286,5 +297,22 @@ def handle (toks : List String) : String :=
           (if idOk then "inv-ok " else "inv-bad ") ++ showList (fun row => showList showQ row) (ofMat H) "|"
       | _, _, _, _, _ => "bad-op"
   | _ => "bad-op"
+
+/-- R16: `buf <kind> <fixed tokens> slot=<key> ops=r<contents>;c<K>;…` — `Cazac.BufState.run` with the
+    handler of the single-call line `<kind>` as callee: the buffer is the value of the token `<key>`
+    (`Y`, `S`, `ph`, `l`), a call `c<K>` appends `K=<K>` (nothing for `c`); outputs joined by ` ; ` -/
+def handle (toks : List String) : String :=
+  match toks with
+  | "buf" :: kind :: rest =>
+    match kv rest "slot", kv rest "ops" with
+    | some slot, some opsS =>
+      let fixed := rest.filter (fun t => !(t.startsWith "ops=") && !(t.startsWith "slot="))
+      let ops : List (BufOp String String) := (fields opsS ";").map (fun o =>
+        if o.startsWith "r" then .refill (o.drop 1).toString else .call (o.drop 1).toString)
+      let f : String → String → String := fun content k =>
+        handle1 (kind :: fixed ++ [slot ++ "=" ++ content] ++ (if k == "" then [] else ["K=" ++ k]))
+      showList id (BufState.run f ⟨"", []⟩ ops).outs " ; "
+    | _, _ => "bad-op"
+  | _ => handle1 toks
 
 def main : IO Unit := runDriver handle
